@@ -116,6 +116,24 @@ fn int_forms(ints: &[E], bools: &[E], full: bool) -> Vec<E> {
                 FPart::Text("-".into()),
                 FPart::Expr(r.clone()),
             ])]));
+            // an f-string as the FIRST thing in a block, its first interpolation of the
+            // shape `X + { Y }` (the parser's record-or-block look-ahead stands right
+            // in front of the modally lexed string)
+            out.push(E::Call("slen".into(), vec![E::Block(blk(
+                vec![],
+                Some(E::FStr(vec![
+                    FPart::Expr(bin(BinOp::Add, l.clone(), E::Block(blk(vec![], Some(r.clone()))))),
+                    FPart::Text("x".into()),
+                ])),
+            ))]));
+            // the same in statement position, followed by more of the block
+            out.push(E::Block(blk(
+                vec![S::Expr(E::Call("slen".into(), vec![E::FStr(vec![
+                    FPart::Text("a".into()),
+                    FPart::Expr(bin(BinOp::Mul, l.clone(), E::Block(blk(vec![], Some(r.clone()))))),
+                ])]))],
+                Some(r.clone()),
+            )));
         }
     }
     let three: Vec<&E> = if full { ints.iter().collect() } else { ints.iter().take(2).collect() };
